@@ -229,6 +229,18 @@ func (g *rig) onForged(b *blockchain.Block) {
 // forgeOnce runs the real forge() and returns the handed block (nil if none).
 func (g *rig) forgeOnce() *blockchain.Block {
 	g.w.handed = nil
+	// what the application puts into the block: assets whose directive makes the block hooks
+	// emit events and - sometimes - change the validator set / thresholds from the next height
+	if g.r.Intn(3) != 0 {
+		d := &node.Directive{Salt: g.r.Intn(1 << 20), Events: g.r.Intn(3), AfterEvents: g.r.Intn(2)}
+		if g.r.Intn(5) == 0 {
+			d.Change = node.RandomChange(g.r, len(g.n.Universe), g.n.Cfg.BatchSize)
+			g.k.Count("forge_attempts_with_validator_change", 1)
+		}
+		g.n.ABI.NextAssets = []*blockchain.BlockAsset{{Module: node.VerifModule, Data: d.Encode()}}
+	} else {
+		g.n.ABI.NextAssets = nil
+	}
 	g.gen.VerifForge()
 	if len(g.w.handed) == 0 {
 		return nil
